@@ -242,6 +242,9 @@ pub fn run(p: &Params) -> Report {
                         if let Compiled::Ok(rel) = compile(&g.sql, &relations) {
                             rep.nontrivial(hash64(&g.sql));
                             all_dialects(&rel, &relations, "generated query", &json!({"query": g.sql}), Some(&cat), rep);
+                            // the one dialect with an engine: the translation must also agree with the original query
+                            // (the reference rendering shares the relation-to-query visitor with every translator)
+                            crate::mon::c08::check_case_with(&cat, &g, rep, "C17|sqlite-vs-original-query", true);
                             rep.sample(|| json!({"query": g.sql, "dialects": 8}));
                         }
                     }
